@@ -44,8 +44,14 @@ structure Enc (C : Type) where
   proxyName : C → Str
   /-- `&plugin.PingContent{User: {ctl.loginMsg.User…}, Ping: *inMsg}`: privilege key, user -/
   ping : Str → Str → C
-  /-- `&plugin.NewWorkConnContent{User: {ctl.loginMsg.User…}, NewWorkConn: *newMsg}`: run id, user -/
+  /-- `&plugin.NewWorkConnContent{User: {ctl.loginMsg.User…}, NewWorkConn: *newMsg}`: the credentials the
+      message carries (privilege key + timestamp), user -/
   newWorkConn : Str → Str → C
+  /-- `retContent.Ping.PrivilegeKey` / `.Timestamp`: what `VerifyPing(inMsg)` reads after `inMsg = &retContent.Ping` -/
+  pingCred : C → Str
+  /-- `retContent.NewWorkConn.PrivilegeKey` / `.Timestamp`: what `VerifyNewWorkConn(newMsg)` reads after
+      `newMsg = &retContent.NewWorkConn` -/
+  workCred : C → Str
   /-- `&plugin.NewUserConnContent{User: pxy.GetUserInfo(), ProxyName: pxy.GetName(), …}`: name, user -/
   newUserConn : Str → Str → C
 
@@ -76,8 +82,9 @@ inductive Msg
   /-- a Ping message on control connection `slot` carrying this privilege key.  `authOk`:
       `authVerifier.VerifyPing` of the (rewritten) message -/
   | ping (slot : Nat) (key : Str) (authOk : Bool)
-  /-- a NewWorkConn message (on a connection of its own) carrying this run id -/
-  | newWorkConn (rid : Str)
+  /-- a NewWorkConn message (on a connection of its own) carrying this run id and these credentials.
+      `authOk`: `authVerifier.VerifyNewWorkConn` of the (rewritten) message -/
+  | newWorkConn (rid cred : Str) (authOk : Bool)
   /-- a user connection accepted by the listener of proxy `name` -/
   | newUserConn (name : Str)
   /-- control connection `slot` ended: `Control.worker` closes every proxy, the session is deleted -/
@@ -166,14 +173,19 @@ def step {C : Type} (E : Enc C) (m : Manager C) (s : Srv) : Msg → Srv × List 
       if r.1.isOk && authOk then
         (s.beat slot, [⟨.ping, m.pingPlugins, c, r.1, r.2, true⟩])
       else (s, [⟨.ping, m.pingPlugins, c, r.1, r.2, false⟩])
-  | .newWorkConn rid =>
+  | .newWorkConn rid cred authOk =>
     -- RegisterWorkConn: ctl, exist := ctlManager.GetByID(newMsg.RunID); if !exist { return err }
     match s.byRid rid with
     | none => (s, [])
     | some ctl =>
-      let c := E.newWorkConn rid ctl.user
+      --   content := &NewWorkConnContent{User{ctl.loginMsg.User…}, NewWorkConn: *newMsg}
+      --   retContent, err := pluginManager.NewWorkConn(content)
+      --   if err == nil { newMsg = &retContent.NewWorkConn; err = authVerifier.VerifyNewWorkConn(newMsg) }
+      --   if err != nil { WriteMsg(&StartWorkConn{Error}); return err }
+      --   return ctl.RegisterWorkConn(workConn)
+      let c := E.newWorkConn cred ctl.user
       let r := m.newWorkConn c
-      (s, [⟨.newWorkConn, m.newWorkConnPlugins, c, r.1, r.2, r.1.isOk⟩])   -- ctl.RegisterWorkConn(conn)
+      (s, [⟨.newWorkConn, m.newWorkConnPlugins, c, r.1, r.2, r.1.isOk && authOk⟩])
   | .newUserConn name =>
     match s.owner name with
     | none => (s, [])                                               -- no such listener
@@ -196,6 +208,124 @@ def run {C : Type} (E : Enc C) (s : Srv) : List (Manager C × Msg) → Srv × Li
     let t := run E r.1 rest
     (t.1, r.2 ++ t.2)
 
+/-! ### the credential check as a function of what the chain returned
+
+  `step` takes the verdicts of VerifyLogin / VerifyPing / VerifyNewWorkConn as data of the message (`authOk`).  For
+  Ping and NewWorkConn the relation is closed here: pkg/auth/token.go checks `privilege_key == md5(token + timestamp)`
+  only when the scope (HeartBeats / NewWorkConns) is configured — a pure function of the credentials of the message it
+  is handed, and the message it is handed is the one the chain RETURNED (`inMsg = &retContent.Ping`, `newMsg =
+  &retContent.NewWorkConn`; the statement order is regenerated from the source, `C15.code_chain_then_verify`). -/
+
+/-- per additional auth scope the credentials the verifier accepts; `none`: the scope is not configured, `Verify…`
+    returns nil whatever the message says -/
+structure Auth where
+  ping : Option (List Str) := none      -- auth.additionalScopes ∋ HeartBeats
+  work : Option (List Str) := none      -- auth.additionalScopes ∋ NewWorkConns
+  deriving DecidableEq, Repr
+
+def Auth.accepts (valid : Option (List Str)) (cred : Str) : Bool :=
+  match valid with
+  | none => true
+  | some v => v.contains cred
+
+/-- what a peer sends: no verdict in it -/
+inductive Req
+  | ping (slot : Nat) (cred : Str)
+  | newWorkConn (rid cred : Str)
+  deriving DecidableEq, Repr
+
+/-- `authVerifier.VerifyPing(inMsg)` at the place where handlePing calls it: on the content the Ping chain returned
+    (nothing to verify when there is no such session or the chain refused: the verifier is not reached) -/
+def pingVerdict {C : Type} (E : Enc C) (A : Auth) (m : Manager C) (s : Srv) (slot : Nat) (cred : Str) : Bool :=
+  match s.bySlot slot with
+  | none => false
+  | some ctl =>
+    match (m.ping (E.ping cred ctl.user)).1 with
+    | .ok c' => Auth.accepts A.ping (E.pingCred c')
+    | _ => false
+
+/-- `authVerifier.VerifyNewWorkConn(newMsg)` at the place where RegisterWorkConn calls it -/
+def workVerdict {C : Type} (E : Enc C) (A : Auth) (m : Manager C) (s : Srv) (rid cred : Str) : Bool :=
+  match s.byRid rid with
+  | none => false
+  | some ctl =>
+    match (m.newWorkConn (E.newWorkConn cred ctl.user)).1 with
+    | .ok c' => Auth.accepts A.work (E.workCred c')
+    | _ => false
+
+/-- one request of a peer on a server with the credential check `A` -/
+def stepReq {C : Type} (E : Enc C) (A : Auth) (m : Manager C) (s : Srv) : Req → Srv × List (Ev C)
+  | .ping slot cred => step E m s (.ping slot cred (pingVerdict E A m s slot cred))
+  | .newWorkConn rid cred => step E m s (.newWorkConn rid cred (workVerdict E A m s rid cred))
+
+/-! ### occurrences in flight at the same time
+
+  Every user connection is served by a goroutine of its own (`go pxy.handleUserTCPConnection(c)` in the accept loop),
+  every work connection / login by the goroutine of its connection (`handleConnection`), Pings and NewProxys by the
+  dispatcher goroutine of their session.  Each of them runs the manager loop by itself, on a content of its own; the
+  loop keeps nothing between two calls.  `Flight` is such a goroutine stopped between two `Handle` calls (a plugin
+  may take its time to answer), `Pool` a set of them, a schedule says whose plugin answers next. -/
+
+/-- one occurrence of a gated operation on its way through the manager loop -/
+structure Flight (C : Type) where
+  op : Op
+  rest : List (Plugin C)              -- the plugins it still has to ask, as they will answer THIS occurrence
+  cur : C                             -- the content the next one is handed
+  res : Option (Result C) := none     -- what the manager method returned, once it has
+  cons : List (Seen C) := []          -- the `Handle` calls it made so far
+
+def Flight.start {C : Type} (op : Op) (chain : List (Plugin C)) (c : C) : Flight C :=
+  { op := op, rest := chain, cur := c }
+
+/-- the `Handle` call the goroutine is about to make / is waiting in -/
+def Flight.asks {C : Type} (f : Flight C) : Option (Seen C) :=
+  match f.res, f.rest with
+  | none, p :: _ => some (p.id, f.cur)
+  | _, _ => none
+
+/-- the next plugin answers: one iteration of the manager loop (`gated`), or its final `return content, nil` -/
+def Flight.advance {C : Type} (f : Flight C) : Flight C :=
+  match f.res with
+  | some _ => f
+  | none =>
+    match f.rest with
+    | [] => { f with res := some (.ok f.cur) }
+    | p :: ps =>
+      match p.handle f.op f.cur with
+      | .err => { f with rest := [], res := some (.error (errMsg f.op)), cons := f.cons ++ [(p.id, f.cur)] }
+      | .resp reject reason unchange content =>
+        if reject then { f with rest := [], res := some (.error reason), cons := f.cons ++ [(p.id, f.cur)] }
+        else if unchange then { f with rest := ps, cons := f.cons ++ [(p.id, f.cur)] }
+        else
+          match content with
+          | none => { f with rest := [], res := some .panic, cons := f.cons ++ [(p.id, f.cur)] }
+          | some c' => { f with rest := ps, cur := c', cons := f.cons ++ [(p.id, f.cur)] }
+
+def Flight.advanceN {C : Type} : Nat → Flight C → Flight C
+  | 0, f => f
+  | n + 1, f => Flight.advanceN n f.advance
+
+def modAt {α : Type} (f : α → α) : Nat → List α → List α
+  | _, [] => []
+  | 0, x :: xs => f x :: xs
+  | i + 1, x :: xs => x :: modAt f i xs
+
+/-- the occurrences in flight -/
+abbrev Pool (C : Type) := List (Flight C)
+
+/-- a schedule: at every step the plugin asked by occurrence `i` answers -/
+def Pool.run {C : Type} (P : Pool C) : List Nat → Pool C
+  | [] => P
+  | i :: sched => Pool.run (modAt Flight.advance i P) sched
+
+/-- what the plugins' side sees of a schedule: who was asked what, tagged with the occurrence, in global order -/
+def Pool.log {C : Type} (P : Pool C) : List Nat → List (Nat × Seen C)
+  | [] => []
+  | i :: sched =>
+    (match (P[i]?).bind Flight.asks with
+      | some e => [(i, e)]
+      | none => []) ++ Pool.log (modAt Flight.advance i P) sched
+
 /-- the encoding used by the correspondence engine over `Content` (two visible members per op, see
     harness/eng_plugin.go).  For Login `b` stands for the members of the message other than the user —
     the run id among them —: every scripted behaviour either copies them all or zeroes them all. -/
@@ -206,8 +336,10 @@ def encContent : Enc Content where
   newProxy := fun n u => ⟨n, u⟩
   proxyName := fun c => c.a
   ping := fun k u => ⟨k, u⟩
-  newWorkConn := fun r u => ⟨r, u⟩
+  newWorkConn := fun k u => ⟨k, u⟩
   newUserConn := fun n _ => ⟨n, []⟩
+  pingCred := fun c => c.a
+  workCred := fun c => c.a
 
 end PluginSite
 end Frp
